@@ -157,6 +157,13 @@ struct Model {
 }
 
 pub fn run_history(h: &[Ev], restart_after: usize, sig: &str) -> (Vec<F>, String) {
+    run_history_t(h, restart_after, sig, &[])
+}
+
+/// `tail`: events whose frame is the last thing in the log when the server goes down - appended
+/// (directly into the store) while the server is stopped, i.e. a crash between the arrival of the
+/// event and every consequence of it.
+pub fn run_history_t(h: &[Ev], restart_after: usize, sig: &str, tail: &[Ev]) -> (Vec<F>, String) {
     let mut fs = vec![];
     let dir = common::scratch_dir("c17");
     let mut r = Remote::start(&dir);
@@ -164,7 +171,7 @@ pub fn run_history(h: &[Ev], restart_after: usize, sig: &str) -> (Vec<F>, String
     let b = r.append("xs.context", None, None, None).id;
     let ctxs = [a, b];
     let mut m = Model::default();
-    let label = format!("{:?} restart after {} with SIG{}", h, restart_after, sig);
+    let label = format!("{:?} restart after {} with SIG{}{}", h, restart_after, sig, if tail.is_empty() { String::new() } else { format!(" log tail {:?}", tail) });
     let mut version = 0;
     let mut apply = |r: &Remote, m: &mut Model, ev: &Ev, fs: &mut Vec<F>| match ev {
         Ev::HReg { name, ctx } => {
@@ -252,6 +259,8 @@ pub fn run_history(h: &[Ev], restart_after: usize, sig: &str) -> (Vec<F>, String
     for ev in &h[..restart_after] {
         apply(&r, &mut m, ev, &mut fs);
     }
+    #[allow(clippy::drop_non_drop)]
+    drop(apply);
     if fs.iter().any(|f| f.kind == "c17.harness") {
         return (fs, "harness".into());
     }
@@ -259,6 +268,51 @@ pub fn run_history(h: &[Ev], restart_after: usize, sig: &str) -> (Vec<F>, String
     let last_before = before.last().map(|f| f.id).unwrap();
     // ---- restart -------------------------------------------------------------------------
     r.stop(sig);
+    if !tail.is_empty() {
+        let store = xs::store::Store::new(dir.clone());
+        let put = |topic: String, ctx: Scru128Id, body: Option<String>, meta: Option<Value>| -> Frame {
+            let hash = body.map(|b| store.cas_insert_sync(b.as_bytes()).expect("cas"));
+            store.append(Frame::builder(topic, ctx).maybe_hash(hash).maybe_meta(meta).build()).expect("harness: offline append")
+        };
+        for ev in tail {
+            match ev {
+                Ev::HReg { name, ctx } => {
+                    let f = put(format!("{}.register", HN[*name]), ctxs[*ctx], Some(handler_src(HN[*name])), None);
+                    m.handlers.insert((*ctx, *name), f.id);
+                }
+                Ev::HUnreg { name, ctx } => {
+                    put(format!("{}.unregister", HN[*name]), ctxs[*ctx], None, None);
+                    m.handlers.remove(&(*ctx, *name));
+                }
+                Ev::Ping { ctx } => {
+                    let f = put("ping".into(), ctxs[*ctx], None, None);
+                    m.old_triggers.push(f.id);
+                }
+                Ev::GSpawn { name, ctx } => {
+                    if m.gens.contains_key(&(*ctx, *name)) || m.finite.contains_key(&(*ctx, *name)) {
+                        continue;
+                    }
+                    let f = put(format!("{}.spawn", GN[*name]), ctxs[*ctx], Some(format!("lines | each {{|x| $\"{}:($x)\"}}", GN[*name])), Some(json!({"duplex": true})));
+                    m.gens.insert((*ctx, *name), f.id);
+                }
+                Ev::CDef { name, ctx } => {
+                    version += 1;
+                    let tag = format!("v{}", version);
+                    let f = put(format!("{}.define", CN[*name]), ctxs[*ctx], Some(format!("{{run: {{|frame| \"{}\"}}}}", tag)), None);
+                    m.cmds.insert((*ctx, *name), (f.id, tag));
+                }
+                Ev::CCall { name, ctx } => {
+                    let f = put(format!("{}.call", CN[*name]), ctxs[*ctx], None, None);
+                    m.old_calls.push(f.id);
+                }
+                other => panic!("harness: {:?} is not a tail event", other),
+            }
+        }
+        if !common::close_store(store, Duration::from_secs(20)) {
+            panic!("harness: offline store did not close");
+        }
+    }
+    let last_before = if tail.is_empty() { last_before } else { xs_last_id(&dir, last_before) };
     let r2 = Remote::start(&dir);
     // sentinels: each loop handles its input in order, so a live round trip proves the start-up
     // processing (compaction + restoration) is complete
@@ -375,6 +429,33 @@ pub fn run_history(h: &[Ev], restart_after: usize, sig: &str) -> (Vec<F>, String
     (fs, outcome)
 }
 
+/// id of the newest stored frame (the offline appends moved it)
+fn xs_last_id(_dir: &Path, fallback: Scru128Id) -> Scru128Id {
+    // ids are time-ordered: anything appended by the restarted server is newer than now
+    let n = scru128::new();
+    if n > fallback {
+        n
+    } else {
+        fallback
+    }
+}
+
+/// (history, tail) pairs: the tail event's frame is the last one in the log at the crash
+pub fn tails() -> Vec<(Vec<Ev>, Vec<Ev>)> {
+    use Ev::*;
+    vec![
+        (vec![HReg { name: 0, ctx: 0 }, HReg { name: 0, ctx: 1 }], vec![HReg { name: 0, ctx: 0 }]),
+        (vec![HReg { name: 0, ctx: 0 }], vec![HReg { name: 1, ctx: 0 }]),
+        (vec![HReg { name: 0, ctx: 0 }, HReg { name: 0, ctx: 1 }], vec![HUnreg { name: 0, ctx: 1 }]),
+        (vec![HReg { name: 1, ctx: 0 }], vec![HUnreg { name: 1, ctx: 0 }, Ping { ctx: 0 }]),
+        (vec![HReg { name: 0, ctx: 0 }], vec![Ping { ctx: 0 }]),
+        (vec![GSpawn { name: 0, ctx: 0 }], vec![GSpawn { name: 0, ctx: 1 }]),
+        (vec![CDef { name: 0, ctx: 0 }, CDef { name: 0, ctx: 1 }], vec![CDef { name: 0, ctx: 0 }]),
+        (vec![CDef { name: 0, ctx: 0 }], vec![CCall { name: 0, ctx: 0 }]),
+        (vec![HReg { name: 0, ctx: 0 }, GSpawn { name: 0, ctx: 0 }, CDef { name: 0, ctx: 0 }], vec![HReg { name: 0, ctx: 0 }, CDef { name: 0, ctx: 0 }, CCall { name: 0, ctx: 0 }]),
+    ]
+}
+
 pub fn histories(thorough: bool) -> Vec<Vec<Ev>> {
     use Ev::*;
     let mut v: Vec<Vec<Ev>> = vec![
@@ -425,7 +506,8 @@ pub fn worker() {
         let h: Vec<Ev> = serde_json::from_value(job["history"].clone()).unwrap();
         let at = job["restart_after"].as_u64().unwrap() as usize;
         let sig = job["sig"].as_str().unwrap();
-        let (fs, outcome) = run_history(&h, at, sig);
+        let tail: Vec<Ev> = job.get("tail").and_then(|t| serde_json::from_value(t.clone()).ok()).unwrap_or_default();
+        let (fs, outcome) = run_history_t(&h, at, sig, &tail);
         json!({"findings": fs.iter().map(|f| json!({"kind": f.kind, "msg": f.msg})).collect::<Vec<_>>(), "outcome": outcome})
     });
 }
@@ -449,6 +531,11 @@ pub fn run(tier: &str, report: &mut Report) {
                 }
                 jobs.push(json!({"history": h, "restart_after": at, "sig": sig}));
             }
+        }
+    }
+    for (h, t) in tails() {
+        for sig in ["KILL", "TERM"] {
+            jobs.push(json!({"history": h, "restart_after": h.len(), "sig": sig, "tail": t}));
         }
     }
     let results = common::pool_map("c17", &[], common::ncpu(), jobs.clone());
@@ -481,13 +568,14 @@ pub fn run(tier: &str, report: &mut Report) {
     report.cov("distinct_outcomes", json!(outcomes.len()));
     report.cov("exhaustive", json!(true));
     report.cov("samples", json!(jobs.iter().step_by((jobs.len() / 4).max(1)).take(4).collect::<Vec<_>>()));
-    report.cov("explanation", json!("histories of register / unregister / replace / closure error, spawn / failing spawn, define / invalid define / call over 2 names x 2 contexts with the same name used in both contexts (quick: a fixed family of 16; thorough: + every history of depth <= 3 over a 12-event alphabet) x restart point x {SIGKILL, SIGTERM} against the real `xs serve` binary; after the restart sentinels prove each loop is live, then the announced handlers / started generators must be exactly the active ones with the same ids, every one of them answers a probe, commands are served by the latest definition of their own context, nothing stopped answers and no historical trigger or call is executed again"));
+    report.cov("explanation", json!("histories of register / unregister / replace / closure error, spawn / failing spawn, define / invalid define / call over 2 names x 2 contexts with the same name used in both contexts (quick: a fixed family of 16; thorough: + every history of depth <= 3 over a 12-event alphabet) x restart point x {SIGKILL, SIGTERM} against the real `xs serve` binary, plus histories whose last event(s) reached the log without any consequence (appended while the server is down: a crash between the arrival of an event and its processing); after the restart sentinels prove each loop is live, then the announced handlers / started generators must be exactly the active ones with the same ids, every one of them answers a probe, commands are served by the latest definition of their own context, nothing stopped answers and no historical trigger or call is executed again"));
 }
 
 pub fn replay(v: &Value) -> i32 {
     let j = &v["job"];
     let h: Vec<Ev> = serde_json::from_value(j["history"].clone()).unwrap();
-    let (fs, outcome) = run_history(&h, j["restart_after"].as_u64().unwrap() as usize, j["sig"].as_str().unwrap());
+    let tail: Vec<Ev> = j.get("tail").and_then(|t| serde_json::from_value(t.clone()).ok()).unwrap_or_default();
+    let (fs, outcome) = run_history_t(&h, j["restart_after"].as_u64().unwrap() as usize, j["sig"].as_str().unwrap(), &tail);
     println!("outcome {}", outcome);
     for f in &fs {
         println!("finding {}: {}", f.kind, f.msg);
